@@ -46,6 +46,14 @@ def run(ctx):
             args.append("-slow")
         ctx.run_driver(args, race=False, timeout=900)
         return p
+    # a peer that never answers the logout: Close returns after the logout's own minute (three scenarios of 60 s each,
+    # one process each, running beside everything else)
+    def slow(i):
+        p = os.path.join(ctx.scratch, "life-slow-%d.ndjson" % i)
+        ctx.run_driver(["life", "-out", p, "-seed", ctx.seed, "-directed", "-slowonly", "-part", i, "-parts", 3], race=False, timeout=900)
+        return p
+    slow_ex = ThreadPoolExecutor(max_workers=3)
+    slow_futs = [slow_ex.submit(slow, i) for i in range(3)]
     with ThreadPoolExecutor(max_workers=parts) as ex:
         outs = list(ex.map(one, range(parts)))
 
@@ -67,9 +75,15 @@ def run(ctx):
     t2 = os.path.join(ctx.scratch, "tx-cancel.ndjson")
     ctx.run_driver(["tx", "-count", 1500 if thorough else 300, "-seed", ctx.seed + 17, "-out", t2])
     ctx.validate("", "Trace_TxPath", "Trace_TxPath.cfg", t2, label="sends with cancelled contexts write nothing", extra_env={"JUDGE": "C13"})
+    ts = os.path.join(ctx.scratch, "life-slow.ndjson")
+    with open(ts, "w") as o:
+        for fu in slow_futs:
+            o.write(open(fu.result()).read())
+    slow_ex.shutdown()
+    ctx.validate("", "Trace_Life", "Trace_Life.cfg", ts, shards=1, label="a peer that never answers the logout, with and without a read timeout: Close returns within the logout's minute (watchdog 66 s)")
     ctx.extra.update({"tlc_stimuli_sequences": len(uniq)})
     ctx.assumptions += [
-        "time is observed with a watchdog: a call that has not returned 1.5 s after the last stimulus is Hung; Close on channel 0 with a peer that never answers the logout is bounded by the library's 1-minute logout context (thorough tier only)",
+        "time is observed with a watchdog: a call that has not returned 1.5 s after the last stimulus is Hung; Close on channel 0 with a peer that never answers the logout is bounded by the library's 1-minute logout context (three scenarios with a 66 s watchdog run beside the others)",
         "'reader ended' = no goroutine of this connection is left in Conn.ReadFrom (goroutine dump), 'transport closed' = Close was called on the harness transport",
         "no known finding is acknowledged any more (the two Close hangs are repaired, known_findings.json): the guarded KF_* actions of Trace_Life are disabled and every hung Close is a violation"]
     return ctx.finish(rule="U1: RWMutex with writer preference, bounded queue, reader/consumer/closer/canceller, K in {1,2}, safety + liveness under weak fairness; pinned protocol refuted; U2/U3 as labelled")
